@@ -420,6 +420,41 @@ def run(tier):
                     if on_disk != content:
                         v.violation("C09/upload/content", f"{cfg}: uploaded file differs", replay)
                     distinct.add((cfg, "upload", b, w, fl))
+            # a duplicated DATA block in the middle of a window: it is re-acknowledged, and from there the receiver again takes
+            # exactly the acknowledged number of blocks per window
+            for w in (4, 3):
+                evaluations += 1
+                su = N._sock(srv.family, timeout=1.0)
+                tru = N.Transfer()
+                body = N.keyed_content(f"dupmid{w}", 512 * (2 + w) + 100)
+                su.sendto(N.enc_req(N.WRQ, f"dupmid_{w}.bin", options=[("blksize", 512), ("windowsize", w)]), srv.addr)
+                k, f, pu = N.recv(su, tru)
+                seen = []
+                if k == "OACK" and dict(f["options"]).get("windowsize") == str(w):
+                    def blk(i):
+                        return N.enc_data(i, body[(i - 1) * 512:i * 512])
+                    for i in (1, 2, 2):
+                        su.sendto(blk(i), pu)
+                    k1, f1, _ = N.recv(su, tru, timeout=1.0)
+                    seen.append(("after 1,2,2", k1, f1 and f1.get("blk")))
+                    early = None
+                    for i in range(3, 3 + w):
+                        su.sendto(blk(i), pu)
+                        k2, f2, _ = N.recv(su, tru, timeout=0.15 if i < 2 + w else 1.0)
+                        seen.append((f"after {i}", k2, f2 and f2.get("blk")))
+                        if k2 == "ACK" and i < 2 + w and f2["blk"] > 2:
+                            early = (i, f2["blk"])
+                    su.sendto(blk(3 + w), pu)           # final, short
+                    N.recv(su, tru, timeout=1.0)
+                    rp = {"engine": "net", "config": cfg, "scenario": "WRQ, DATA 1,2,2 then in-order blocks", "windowsize": w, "replies": seen}
+                    if k1 == "ACK" and f1["blk"] == 2 and early:
+                        v.violation("C09/upload/window-after-duplicate", f"{cfg}: acknowledged windowsize {w}; after the duplicate DATA 2 was re-acknowledged, block {early[0]} was acknowledged (ACK {early[1]}) although only {early[0] - 2} in-order block(s) had followed the last ACK", rp)
+                    elif k1 == "ACK" and f1["blk"] == 2 and seen[-1][1:] == ("ACK", 2 + w):
+                        distinct.add((cfg, "duplicate-mid-window", w))
+                        classes["duplicate-mid-window"] = classes.get("duplicate-mid-window", 0) + 1
+                    else:
+                        v.note_inconclusive(f"{cfg}: duplicate-mid-window scenario (windowsize {w}) took an unexpected course: {seen}")
+                su.close()
             # ---- C. retransmission interval (lower bound is the verdict; upper bound is a watchdog)
             Ts = [1, 2, 3, 0, 7, 30] if thorough else [1, 2, 7]
             with concurrent.futures.ThreadPoolExecutor(max_workers=6) as ex:
